@@ -32,6 +32,16 @@ Theorem every_spelling_normalizes_alike :
 Proof. exact normalize_spellings. Qed.
 Print Assumptions every_spelling_normalizes_alike.
 
+Theorem an_empty_alternative_is_not_a_negation :
+  forall t tags, strip t = [] -> ~ In [] tags -> v1_test tags (normalize_tag_v1 t) = false.
+Proof. exact empty_alternative_never_holds. Qed.
+Print Assumptions an_empty_alternative_is_not_a_negation.
+
+Example a_trailing_comma_adds_nothing :
+  (match v1_groups [[97; 44]%N] with Some g => map (v1_check g) [[[97]%N]; [[98]%N]; []] | None => [] end) = [true; false; false]
+  /\ (match v1_groups [[97; 44; 98]%N; []] with Some g => map (v1_check g) [[[97]%N]; [[98]%N]; []] | None => [] end) = [false; false; false].
+Proof. vm_compute. split; reflexivity. Qed.
+
 (* auto detection *)
 Theorem mixed_text_is_rejected :
   forall text, has_v1_prefix (words_of text) = true -> has_v2_keyword (words_of text) = true ->
